@@ -1,3 +1,170 @@
-From KV Require Import C01.Model C01.Proofs.
-Theorem placeholder_thm : True. Proof. exact placeholder. Qed.
-Print Assumptions placeholder_thm.
+(* C01 — Simulated placements are feasible on every launch option.
+   Property theorems only; each is closed by [exact] of a lemma from C01/Proofs.v.
+   Model: C01/Model.v (NodeClaim.CanAdd/Add, filterInstanceTypesByRequirements, ExistingNode.CanAdd/Add,
+   Preferences.Relax, taints, host ports, resources) at method granularity; the Kubernetes side is
+   [admissible] / [labels_ok] / [k8s_tolerated] / [ports_ok] / [resources_ok] in the same file. *)
+From Coq Require Import ZArith String List Bool Permutation.
+From KV Require Import Base.Req Base.ReqProofs Base.K8s C01.Model C01.Proofs.
+Import ListNotations.
+Open Scope string_scope.
+Open Scope list_scope.
+Open Scope Z_scope.
+
+(* ---- the boolean oracle evaluated on the implementation's placements IS the specification ---- *)
+Theorem admissible_b_spec : forall (v : nview) (ps : list pod), eff_wf (v_eff v) -> Forall pod_valid ps ->
+  (admissible_b v ps = true <-> admissible v ps).
+Proof. exact admissible_b_spec_l. Qed.
+Print Assumptions admissible_b_spec.
+
+(* "`key op values` holds for every label the node may get" is decided exactly, for every requirement
+   (any exclusion list, any int64 bounds) and every operator *)
+Theorem label_quantifier_decided : forall (e : req) (o : oper) (vs : list string), wf e -> valid_args o vs = true ->
+  (sat_all_b e o vs = true <-> sat_all e o vs).
+Proof. exact sat_all_b_spec. Qed.
+Print Assumptions label_quantifier_decided.
+
+(* ---- the building blocks are at least as strict as Kubernetes ---- *)
+Theorem fits_within_allocatable : forall cand total : rl,
+  fits cand total = true -> forall k, rget k cand <= rget k total.
+Proof. exact fits_spec. Qed.
+Print Assumptions fits_within_allocatable.
+
+Theorem tolerates_implies_k8s : forall ts tols, tolerates_all ts tols = true -> k8s_tolerated ts tols.
+Proof. exact tolerates_all_k8s. Qed.
+Print Assumptions tolerates_implies_k8s.
+
+Theorem port_check_covers_k8s : forall (u : usage) (who : string) (ports : list hp),
+  conflicts u who ports = false ->
+  forall n, List.In n ports -> forall k ps e, List.In (k, ps) u -> k <> who -> List.In e ps -> ~ k8s_port_clash n e.
+Proof.
+  intros u who ports H n Hn k ps e Hin Hk He Hc.
+  pose proof (proj1 (conflicts_false_spec u who ports) H n Hn k ps e Hin Hk He) as Hm.
+  rewrite (k8s_clash_matches n e Hc) in Hm. discriminate.
+Qed.
+Print Assumptions port_check_covers_k8s.
+
+(* every value a pod's requirement admits satisfies its node selector and its first required term *)
+Theorem pod_requirements_sound : forall (all : bool) (p : pod) (k v : string),
+  has (get (pod_reqs all p) k) v = true ->
+  (forall val, List.In (k, val) (p_sel p) -> k8s_match In [val] (Some v) = true) /\
+  (forall t rest, p_req p = t :: rest -> valid_term t ->
+     forall o vs, List.In (k, o, vs) t -> k8s_match o vs (Some v) = true).
+Proof. exact pod_reqs_sound. Qed.
+Print Assumptions pod_requirements_sound.
+
+(* every instance type that survives filterInstanceTypesByRequirements has an available offering compatible with
+   the requirements whose allocatable holds the summed requests plus the daemon overhead of its group, no daemon
+   host-port conflict, and requirements that intersect the claim's *)
+Theorem filter_sound : forall wk cat elig r who ports groups total relax rem unsat,
+  filter_its wk cat elig r who ports groups total relax = (rem, unsat, None) ->
+  rem <> [] /\
+  forall i, List.In i rem ->
+    mem (it_name i) elig = true /\ List.In i cat /\
+    exists g, List.In g groups /\ List.In (it_name i) (dg_its g) /\ option_ok wk r total who ports g i.
+Proof. exact filter_its_sound. Qed.
+Print Assumptions filter_sound.
+
+(* ---- NodeClaim: step invariant, over arbitrary op sequences (any queue order, relaxation state, minValues policy) ---- *)
+Theorem nc_step_preserves_inv : forall wk cat all rx n p,
+  nc_wf n -> pod_wf p -> nc_inv wk cat n ->
+  nc_wf (fst (nc_step wk cat all rx n p)) /\ nc_inv wk cat (fst (nc_step wk cat all rx n p)).
+Proof. exact nc_step_preserves. Qed.
+Print Assumptions nc_step_preserves_inv.
+
+(* after ANY sequence of CanAdd/Add attempts against a fresh claim: every placed pod tolerates the taints;
+   for every key on which the claim still admits a value, every label the node may get satisfies the pod's node
+   selector and the required term it was placed with; and for EVERY remaining instance type there is an available
+   offering compatible with the claim's requirements whose allocatable holds the summed requests of all placed pods
+   plus the daemon overhead.  (partial: the guard "the claim admits a value for the key" — see the refutation) *)
+Theorem nc_options_admissible_partial : forall wk cat all n0 ops,
+  nc_wf n0 -> nc_pods n0 = [] -> nc_requests n0 = [] -> Forall (fun op => pod_wf (fst op)) ops ->
+  let n := nc_exec wk cat all n0 ops in
+  (forall p, List.In p (nc_pods n) -> k8s_tolerated (nc_taints n) (p_tols p) /\ chosen_ok (nc_reqs n) p) /\
+  (nc_pods n <> [] -> forall name, List.In name (nc_its n) ->
+     exists i g alloc offs o, List.In i cat /\ it_name i = name /\ List.In g (nc_groups n) /\ List.In name (dg_its g) /\
+       List.In (alloc, offs) (it_groups i) /\ List.In o offs /\ compatible wk (nc_reqs n) o = true /\
+       resources_ok (nc_pods n) (dg_overhead g) alloc).
+Proof. exact nc_options_admissible_l. Qed.
+Print Assumptions nc_options_admissible_partial.
+
+(* F11 (known finding contradictory-constraints-collapse-to-doesnotexist): without the guard the statement is false.
+   The real step places a pod whose required `team In [a]` and preferred `team In [c]` collapse to the empty
+   requirement; the claim then carries `team DoesNotExist` and no required term of the pod can hold. *)
+Theorem nc_absent_label_refuted :
+  exists wk cat all rx n p,
+    let n' := fst (nc_step wk cat all rx n p) in
+    List.In p (nc_pods n') /\ nc_its n' <> [] /\ labels_ok_b (eff_new wk (nc_reqs n') [] []) p = false.
+Proof.
+  exists [], [f11_it], true, false, f11_claim, f11_pod. destruct f11_step as (H1 & H2 & H3).
+  cbv zeta. split; [|split; [rewrite H2; discriminate|exact H3]].
+  vm_compute. left. reflexivity.
+Qed.
+Print Assumptions nc_absent_label_refuted.
+
+(* ---- ExistingNode ---- *)
+Theorem ex_step_preserves_inv : forall all rem0 n p, pod_wf p -> ex_inv rem0 n -> ex_inv rem0 (fst (ex_step all n p)).
+Proof. exact ex_step_preserves. Qed.
+Print Assumptions ex_step_preserves_inv.
+
+(* over any sequence of attempts the pods placed on an existing node stay within what was left for them *)
+Theorem ex_requests_within_remaining : forall all ops n0,
+  Forall pod_wf ops -> en_pods n0 = [] -> (forall k, 0 <= rget k (en_remaining n0)) ->
+  let n := ex_exec all n0 ops in
+  forall k, rsum (map p_requests (en_pods n)) k <= rget k (en_remaining n0).
+Proof. exact ex_resources_l. Qed.
+Print Assumptions ex_requests_within_remaining.
+
+(* F12 (known finding existing-node-undefined-label-after-notin): a node without a `team` label accepts
+   `team NotIn [a]` and then `team In [b]`; in the other order the second pod is rejected *)
+Theorem ex_labels_refuted :
+  exists all n labels p1 p2,
+    map p_key (en_pods (ex_exec all n [p1; p2])) = [p_key p1; p_key p2] /\
+    labels_ok_b (eff_labels labels) p2 = false /\
+    map p_key (en_pods (ex_exec all n [p2; p1])) = [p_key p1].
+Proof.
+  exists true, f12_node, [("zone", "z1")], f12_p1, f12_p2. destruct f12_accepted as [H1 H2].
+  split; [exact H1|]. split; [exact H2|exact f12_order].
+Qed.
+Print Assumptions ex_labels_refuted.
+
+(* F13 (known finding existing-node-daemon-hostport-not-reserved) *)
+Theorem ex_daemon_ports_refuted :
+  exists all n labels alloc p d,
+    map p_key (en_pods (ex_exec all n [p])) = [p_key p] /\
+    existing_admissible_b labels (en_taints n) alloc [] [p] [d] = false.
+Proof. exists true, f12_node, [("zone", "z1")], [("cpu", 4000)], f13_pod, f13_daemon. exact f13_accepted. Qed.
+Print Assumptions ex_daemon_ports_refuted.
+
+(* ---- relaxation: any number of steps only drops preferred terms, leading OR-ed required terms while one is
+   left, ScheduleAnyway constraints, or appends the PreferNoSchedule toleration ---- *)
+Theorem relax_only_weakens : forall (tol_pns : bool) (n : nat) (p : pod), relaxation_ok p (relax_n tol_pns n p).
+Proof. exact relax_only_weakens_l. Qed.
+Print Assumptions relax_only_weakens.
+
+Theorem relaxed_term_is_original : forall orig rel t rest,
+  relaxation_ok orig rel -> p_req rel = t :: rest -> List.In t (p_req orig).
+Proof. exact relaxed_head_original. Qed.
+Print Assumptions relaxed_term_is_original.
+
+Theorem last_required_term_kept : forall (tol_pns : bool) (n : nat) (p : pod),
+  p_req p <> [] -> p_req (relax_n tol_pns n p) <> [].
+Proof. intros tp n p. exact (relaxed_keeps_required p (relax_n tp n p) (relax_only_weakens_l tp n p)). Qed.
+Print Assumptions last_required_term_kept.
+
+(* the toleration relaxation may add never makes a NoSchedule / NoExecute taint tolerated *)
+Theorem relaxed_tolerations_sound : forall ts orig extra,
+  (forall t, List.In t extra -> t = pns_toleration) -> k8s_tolerated ts (orig ++ extra) -> k8s_tolerated ts orig.
+Proof. exact tolerated_orig. Qed.
+Print Assumptions relaxed_tolerations_sound.
+
+(* ---- non-vacuity ---- *)
+Example two_pods_narrow_the_options :
+  let n := nc_exec ["zone"] [ex_it1; ex_it2] true ex_claim [(ex_pod "a" 600, false); (ex_pod "b" 600, false)] in
+  map p_key (nc_pods n) = ["a"; "b"] /\ nc_its n = ["big"] /\ nc_requests n = [("cpu", 1200); ("pods", 2000)].
+Proof. exact example_two_pods. Qed.
+
+Example relaxation_chain :
+  let p := mkPod "p" [] [[("a", In, ["1"])]; [("b", In, ["2"])]] [(5, [("c", Exists, [])])] [] [] [("zone", true); ("host", false)] [] [] [] in
+  p_req (relax_n true 10 p) = [[("b", In, ["2"])]] /\ p_pref (relax_n true 10 p) = [] /\
+  p_tsc (relax_n true 10 p) = [("host", false)] /\ p_tols (relax_n true 10 p) = [pns_toleration].
+Proof. exact example_relax. Qed.
